@@ -121,13 +121,17 @@ def expected_pixel_rows(da: sc.DataArray) -> np.ndarray:
     return np.stack(cols, axis=1) if len(cols[0]) else np.zeros((0, 9), 'float32')
 
 
-def experiment(run_id=0, mode='direct', angle_unit='rad', energy_unit='meV', n_en=3, n_det=4, en2d=False, filename='run.nxspe', filepath='/data', efix_array=False) -> SqwIXExperiment:
+def experiment(run_id=0, mode='direct', angle_unit='rad', energy_unit='meV', n_en=3, n_det=4, en2d=False, filename='run.nxspe', filepath='/data', efix_array=False, int_dtype=None) -> SqwIXExperiment:
+    def whole(v):
+        # whole numbers held in an integer variable (int_dtype), e.g. energies counted in ueV, angles in whole degrees
+        return sc.round(v).astype(int_dtype) if int_dtype else v
+
     def ang(x):
         v = sc.scalar(float(x), unit='rad')
-        return v.to(unit=angle_unit)
+        return whole(v.to(unit=angle_unit))
 
     def en(x):
-        return x.to(unit=energy_unit)
+        return whole(x.to(unit=energy_unit))
 
     en_vals = sc.array(dims=['energy_transfer'], values=[-0.1 + 0.37 * k for k in range(n_en)], unit='meV')
     if mode == 'direct':
